@@ -50,6 +50,9 @@ func Run(r *core.Run) {
 		programBinding(r, map[bool]string{false: "JsSemGen.quick.cfg", true: "JsSemGen.thorough.cfg"}[r.Thorough()])
 	}()
 	wg.Wait()
+	if n := r.DriftCount(); n > 25 {
+		r.Infra("the specification disagrees with V8 on %d input programs/cells: drift exceeds the budget, no verdict", n)
+	}
 	r.Set("rule", "fold: every (operator, a, b) over the 22-value boundary grid in each compile-time-evaluation context; programs: TLC-generated expression trees / statement skeletons with probe leaves x environments; non-trivial = the program matches >= 1 peephole pattern class of JsSem and the minified output differs textually from the unminified print; distinct by (program, options)")
 }
 
